@@ -5,6 +5,7 @@ package main
 
 import (
 	"fmt"
+	"os"
 	"go/constant"
 	"go/types"
 	"strings"
@@ -125,6 +126,22 @@ func (x *VC) callStatic(callee *ssa.Function, args []*Val, binds []*Val, st *Sta
 		x.refuse("call to %s: recursive and no contract", callee)
 	}
 	x.inlined[fnKeyShort(callee)] = true
+	x.inlineCount++
+	if debugOn {
+		fmt.Fprintf(os.Stderr, "%sinline %s (depth %d, #%d)\n", strings.Repeat(" ", depth), fnKeyShort(callee), depth, x.inlineCount)
+	}
+	if callee.Pkg != nil && !strings.HasPrefix(callee.Pkg.Pkg.Path(), repoPrefix) {
+		n := 0
+		for _, b := range callee.Blocks {
+			n += len(b.Instrs)
+		}
+		if n > 60 {
+			x.refuse("call to %s: foreign function without contract is too large to inline (%d instructions)", callee, n)
+		}
+	}
+	if x.inlineCount > 4000 {
+		x.refuse("inlining budget exceeded (4000 inlined calls): dispatch needs a typeinv or a contract")
+	}
 	res, out, _ := x.runFunc(callee, args, binds, st, reach, depth+1, false)
 	*st = *out.clone()
 	if res == nil {
@@ -169,6 +186,21 @@ func (x *VC) invoke(recv *Val, ifaceT types.Type, m *types.Func, args []*Val, st
 	impls := x.eng.implementers(ifaceT)
 	if recv.Alt != nil {
 		impls = recv.Alt
+	} else if x.c != nil && x.c.Dispatch != nil && x.specMode == 0 {
+		if n, ok := ifaceT.(*types.Named); ok {
+			if alts, ok := x.c.Dispatch[n.Obj().Name()]; ok {
+				var hs []types.Type
+				var conds []string
+				for _, a := range alts {
+					t := x.resolveType(a, x.eng.pkgByPath(x.c.Pkg))
+					hs = append(hs, t)
+					conds = append(conds, sEq("(dtype "+recv.T+")", x.tag(t)))
+				}
+				x.addObl("dispatch", n.Obj().Name()+"."+m.Name(), pos, reach, sOr(conds...))
+				x.assume(reach, sOr(conds...))
+				impls = hs
+			}
+		}
 	}
 	if impls == nil {
 		x.refuse("invoke %s on open-world interface %s at %s (needs a contract %s)", m.Name(), shortType(ifaceT), pos, ikey)
@@ -260,6 +292,11 @@ func (x *VC) autoPure(pkg *types.Package, full string, sig *types.Signature, st 
 	}
 	p := pkg.Path()
 	pure := p == repoPrefix+"client/pkg/log" || p == "github.com/sirupsen/logrus" || p == "runtime/debug" || p == "log"
+	if !pure && returnsOnlyLogger(sig) {
+		// logger getters (its.L(), ctx.L()): the logger object is irrelevant to every property
+		pure = true
+		p = "logger getters returning *log.OrdaLog"
+	}
 	if !pure {
 		return nil, false
 	}
@@ -657,10 +694,11 @@ func (e *Engine) pkgByPath(p string) *types.Package {
 }
 
 // resolveModifies maps a selector of a modifies clause to components.
-//   Type.field        all components of that field (slices: arr/off/len)
-//   map[K]V           the three components of that map type
-//   alloc             the allocation set
-//   Type.$ghost       ghost field
+//
+//	Type.field        all components of that field (slices: arr/off/len)
+//	map[K]V           the three components of that map type
+//	alloc             the allocation set
+//	Type.$ghost       ghost field
 func (x *VC) resolveModifies(sel string, env *SEnv) []*Comp {
 	sel = strings.TrimSpace(sel)
 	if sel == "alloc" {
@@ -747,3 +785,12 @@ func (x *VC) resolveModifies(sel string, env *SEnv) []*Comp {
 }
 
 var _ = constant.MakeBool
+
+var debugOn = os.Getenv("GOVC_DEBUG") != ""
+
+func returnsOnlyLogger(sig *types.Signature) bool {
+	if sig.Results().Len() != 1 || sig.Params().Len() != 0 {
+		return false
+	}
+	return shortTypeFull(sig.Results().At(0).Type()) == "*"+repoPrefix+"client/pkg/log.OrdaLog"
+}
